@@ -173,8 +173,10 @@ claimed["C13"] = (
     "get_other_mut of live, dead, stale (reused index) and component-less handles; readers on the tracked storages "
     "observe the events; all compared with the specification. Further theorems (on the maps, via the refinement): of the "
     "visited cells exactly those the caller chose to fetch mutably change, every other cell keeps its value; read-only "
-    "restrictions change nothing. Partial: 'a Modified event only for the items fetched mutably' is decided by the "
-    "correspondence on the event streams (the event channel is not part of the map-level theorems).", "5.C13")
+    "restrictions change nothing; on the real storages a restricted item appends exactly one Modified for its index "
+    "when the caller fetches it mutably (tracked storage, emission on) and nothing otherwise, and reading never emits. "
+    "Partial: the event theorem is per item (items without other-entity lookups); the whole event stream of a join is "
+    "decided by the correspondence.", "5.C13")
 claimed["C16"] = (
     "Theorems: for every sequence of (entity, amount) pairs the change set holds, per index, the combination of its "
     "amounts in arrival order (a non-commutative combination, so the order is observable) and nothing for an index that "
